@@ -12,6 +12,12 @@ import (
 type rsVerdict struct {
 	c09, c10, c11, c16 string // "" = clause holds on this trace
 	damaged            string // a client message that is not what its sender encoded (concerns every property: the request of a call, the acknowledgement of a message)
+	// plain: the client took something from a PLAIN-TEXT frame (event U) although the session works under its auth
+	// key. Such a frame needs no key to write, so nothing in it is a message of the server: no caller may receive a
+	// value from it, the salt and the session store stay as they are, no request is repeated because of it, the
+	// application's handler does not see it, nothing in it is acknowledged — the frame is reported (one warning)
+	// and the client reads on. Concerns every property that is stated in terms of "the server's" messages.
+	plain string
 	warnings           int
 }
 
@@ -51,6 +57,14 @@ func rsJudgeTrace(trace string, startUnix, endUnix int64) rsVerdict {
 	sendsOf := map[int]int{}
 	rejectsOf := map[int]int{}
 	returnsOf := map[int]int{}
+	// what plain-text frames carried (and no message of the server did)
+	plainIDs := map[uint64]bool{}     // msg_ids of plain frames and of the members of containers in them
+	plainSalts := map[int64]uint64{}  // salt announced in a plain frame -> msg_id of that frame
+	serverSalts := map[int64]bool{}   // salts the server itself announced
+	plainVals := map[int][]string{}   // caller -> values plain frames named for a request of that caller
+	plainReject := map[int]uint64{}   // caller -> plain frame that named its open request in bad_server_salt
+	plainUpd, serverUpd, seenUpd := 0, 0, 0
+	failedSends := 0 // request writes that failed (injected) and whose call has not reported it yet
 
 	var handle func(s rsSent)
 	handle = func(s rsSent) {
@@ -75,6 +89,7 @@ func rsJudgeTrace(trace string, startUnix, endUnix int64) rsVerdict {
 			id, _ := strconv.ParseUint(p[0], 10, 64)
 			ns, _ := strconv.ParseInt(p[1], 10, 64)
 			owedSalts = append(owedSalts, ns)
+			serverSalts[ns] = true
 			if r, ok := reqs[id]; ok && r.open {
 				r.open = false
 				mustResend[r.caller] = ns
@@ -83,6 +98,7 @@ func rsJudgeTrace(trace string, startUnix, endUnix int64) rsVerdict {
 		case strings.HasPrefix(d, "news("):
 			ns, _ := strconv.ParseInt(strings.TrimSuffix(d[5:], ")"), 10, 64)
 			owedSalts = append(owedSalts, ns)
+			serverSalts[ns] = true
 		case strings.HasPrefix(d, "badmsg("):
 			id, _ := strconv.ParseUint(strings.TrimSuffix(d[7:], ")"), 10, 64)
 			if r, ok := reqs[id]; ok && r.open {
@@ -94,7 +110,46 @@ func rsJudgeTrace(trace string, startUnix, endUnix int64) rsVerdict {
 		case d == "upd" || d == "unk" || d == "trunc" || d == "gzbad" || d == "toodeep" || strings.HasPrefix(d, "svc("):
 			// svc(…): a well-formed service request / informational message the client has no use for
 			v.warnings++
+			if d == "upd" {
+				serverUpd++ // an update: the application's handler is shown it (event H)
+			}
 		}
+	}
+	// notePlain: what one message inside a plain-text frame would make a client do that took it for a message
+	notePlain := func(frame uint64, s rsSent) {
+		plainIDs[s.mid] = true
+		d := s.desc
+		switch {
+		case strings.HasPrefix(d, "res("):
+			p := strings.SplitN(strings.TrimSuffix(d[4:], ")"), "/", 2)
+			id, _ := strconv.ParseUint(p[0], 10, 64)
+			if r, ok := reqs[id]; ok {
+				plainVals[r.caller] = append(plainVals[r.caller], p[1])
+			}
+		case strings.HasPrefix(d, "badmsg("):
+			id, _ := strconv.ParseUint(strings.TrimSuffix(d[7:], ")"), 10, 64)
+			if r, ok := reqs[id]; ok {
+				plainVals[r.caller] = append(plainVals[r.caller], "badmsg")
+			}
+		case strings.HasPrefix(d, "salt("):
+			p := strings.SplitN(strings.TrimSuffix(d[5:], ")"), "/", 2)
+			id, _ := strconv.ParseUint(p[0], 10, 64)
+			ns, _ := strconv.ParseInt(p[1], 10, 64)
+			plainSalts[ns] = frame
+			if r, ok := reqs[id]; ok && r.open {
+				plainReject[r.caller] = frame
+			}
+		case strings.HasPrefix(d, "news("):
+			ns, _ := strconv.ParseInt(strings.TrimSuffix(d[5:], ")"), 10, 64)
+			plainSalts[ns] = frame
+		case d == "upd":
+			plainUpd++
+		}
+	}
+	// a salt only a plain-text frame announced
+	onlyPlain := func(salt int64) (uint64, bool) {
+		f, ok := plainSalts[salt]
+		return f, ok && !serverSalts[salt] && !(haveStart && salt == startSalt)
 	}
 
 	for _, e := range evs {
@@ -148,8 +203,14 @@ func rsJudgeTrace(trace string, startUnix, endUnix int64) rsVerdict {
 				sendsOf[c]++
 				if old, ok := lastOf[c]; ok {
 					if r := reqs[old]; r != nil && r.open {
+						if f, ok := plainReject[c]; ok {
+							fail(&v.plain, "caller %d wrote its request again (%d after %d) because the plain-text frame %d named it in a bad_server_salt: the server had not rejected it", c, mid, old, f)
+						}
 						fail(&v.c11, "caller %d wrote a request again while its request %d was accepted and unanswered (sent twice)", c, old)
 					}
+				}
+				if f, only := onlyPlain(salt); only {
+					fail(&v.plain, "request %d of caller %d carries the salt %d, which only the plain-text frame %d announced: the session's salt was changed by a frame that needs no key to write", mid, c, salt, f)
 				}
 				if ns, ok := mustResend[c]; ok {
 					if salt != ns {
@@ -171,8 +232,38 @@ func rsJudgeTrace(trace string, startUnix, endUnix int64) rsVerdict {
 					for _, id := range strings.Split(p[6], "+") {
 						u, _ := strconv.ParseUint(id, 10, 64)
 						acked[u] = true
+						if plainIDs[u] && !needAck[u] {
+							fail(&v.plain, "the client acknowledged message %d, which only a plain-text frame carried: it processed the frame's content", u)
+						}
 					}
 				}
+			}
+		case "K":
+			// the client's own keepalive ping: a content-related message of the outgoing stream like any request
+			if len(p) >= 3 {
+				mid, _ := strconv.ParseUint(p[1], 10, 64)
+				seq, _ := strconv.ParseUint(p[2], 10, 64)
+				if mid%4 != 0 || mid <= lastID {
+					fail(&v.c10, "keepalive ping %d written after %d: msg_ids not strictly increasing multiples of four", mid, lastID)
+				}
+				if seq%2 != 1 || seq < lastSeq {
+					fail(&v.c10, "keepalive ping %d carries seq_no %d after %d", mid, seq, lastSeq)
+				}
+				lastID, lastSeq = mid, seq
+			}
+		case "U":
+			// a plain-text frame on the keyed session: reported (one warning), nothing else
+			q := strings.SplitN(e, ":", 3)
+			if len(q) == 3 {
+				mid, _ := strconv.ParseUint(q[1], 10, 64)
+				v.warnings++
+				for _, s := range rsFlattenDesc(mid, 0, q[2], 0) {
+					notePlain(mid, s)
+				}
+			}
+		case "H":
+			if strings.Join(p[1:], ":") == rsUpdDump {
+				seenUpd++
 			}
 		case "R":
 			for _, s := range rsFlattenR(e) {
@@ -181,8 +272,20 @@ func rsJudgeTrace(trace string, startUnix, endUnix int64) rsVerdict {
 		case "D":
 			c, _ := strconv.Atoi(p[1])
 			val := strings.Join(p[2:], ":")
+			if failedSends > 0 && strings.HasPrefix(val, "err(sending_message") {
+				// the write of this caller's request failed (event F:q): the call reports that and nothing was sent
+				failedSends--
+				break
+			}
 			returnsOf[c]++
 			q := expect[c]
+			if len(q) == 0 || q[0] != val {
+				for _, pv := range plainVals[c] {
+					if pv == val {
+						fail(&v.plain, "caller %d returned %s: that is what a PLAIN-TEXT frame carried for its request, not an answer of the server (the frame needs no key to write)", c, clip(val))
+					}
+				}
+			}
 			if len(q) == 0 {
 				fail(&v.c09, "caller %d returned %s although no result addressed to its request was delivered", c, clip(val))
 			} else {
@@ -198,6 +301,9 @@ func rsJudgeTrace(trace string, startUnix, endUnix int64) rsVerdict {
 				// the session store refused this salt: the client could not have written it
 				ns, _ := strconv.ParseInt(p[2], 10, 64)
 				storedSalts = append(storedSalts, ns)
+				if f, only := onlyPlain(ns); only {
+					fail(&v.plain, "the salt %d was handed to the session store: only the plain-text frame %d announced it", ns, f)
+				}
 			}
 			if p[1] == "k" && len(p) >= 3 {
 				for _, id := range strings.Split(p[2], "+") {
@@ -205,15 +311,30 @@ func rsJudgeTrace(trace string, startUnix, endUnix int64) rsVerdict {
 					acked[u] = true
 				}
 			}
+			if p[1] == "q" {
+				failedSends++ // the write of a caller's request failed
+			}
 		case "W":
 			ns, _ := strconv.ParseInt(p[1], 10, 64)
 			storedSalts = append(storedSalts, ns)
+			if f, only := onlyPlain(ns); only {
+				fail(&v.plain, "the salt %d was written to the session store: only the plain-text frame %d announced it (a frame that needs no key to write)", ns, f)
+			}
 		}
 	}
 	for c, q := range expect {
 		if len(q) > 0 {
 			fail(&v.c09, "the result for caller %d was never returned to it", c)
 		}
+	}
+	// updates reach the application's handler: once per update the server sent, and never from a plain-text frame
+	switch {
+	case seenUpd > serverUpd && plainUpd > 0:
+		fail(&v.plain, "the application's handler was given the update object %d times; messages of the server carried it %d times, plain-text frames %d times: the handler saw the content of a plain-text frame", seenUpd, serverUpd, plainUpd)
+	case seenUpd > serverUpd:
+		fail(&v.c16, "the application's handler was given the update object %d times, the server sent it %d times", seenUpd, serverUpd)
+	case seenUpd < serverUpd:
+		fail(&v.c16, "the server sent %d updates, the application's handler was given %d", serverUpd, seenUpd)
 	}
 	for id, r := range reqs {
 		if r.open {
@@ -273,7 +394,7 @@ func rsExec(prop string) func(op []string) string {
 				tr = op[1]
 			}
 			v := rsJudgeTrace(tr, 0, 0)
-			for _, c := range []string{v.c09, v.c10, v.c11, v.c16, v.damaged} {
+			for _, c := range []string{v.plain, v.c09, v.c10, v.c11, v.c16, v.damaged} {
 				if c != "" {
 					return "bad:" + strings.ReplaceAll(c, " ", "_")
 				}
@@ -320,6 +441,9 @@ func rsJudge(prop string) func(op []string, out string) string {
 		}
 		if v.damaged != "" {
 			return v.damaged
+		}
+		if v.plain != "" {
+			return v.plain
 		}
 		switch prop {
 		case "c09":
